@@ -14,7 +14,7 @@ Quick == IOEnv.PNC_CAMX_SCALE = "quick"
 ConfigsAll ==
   { [fmt |-> "uamiv", name |-> nm, note |-> <<"v","e","r","i","f">>, itzon |-> 0, spc |-> sp,
      nx |-> g[1], ny |-> g[2], nz |-> g[3], nt |-> nt, year |-> st[1], jjj |-> st[2], hour |-> st[3],
-     plon |-> -97, plat |-> 40, iutm |-> 0, xorg |-> -2736, yorg |-> -2088, delx |-> 36, dely |-> 36,
+     plon |-> -97, plat |-> 40, iutm |-> 0, xorg |-> -2736, yorg |-> -2088, delx |-> 36, dely |-> 24,
      iproj |-> 2, istag |-> 0, tlat1 |-> 33, tlat2 |-> 45, h24 |-> h] :
       nm \in { <<"A","V","E","R","A","G","E">>, <<"E","M","I","S","S","I","O","N","S">> },
       sp \in NameSets, g \in Grids, nt \in 1..3, st \in Starts, h \in BOOLEAN }
@@ -52,7 +52,7 @@ MetConfigs ==
   \* lateral boundary: grids of at least 2 x 2 (an edge has a first and a last cell)
   { [fmt |-> "lateral_boundary", name |-> <<"B","O","U","N","D","A","R","Y">>, note |-> <<"v","e","r","i","f">>, itzon |-> 0,
      spc |-> sp, nx |-> g[1], ny |-> g[2], nz |-> g[3], nt |-> nt, year |-> st[1], jjj |-> st[2], hour |-> st[3],
-     plon |-> -97, plat |-> 40, iutm |-> 0, xorg |-> -2736, yorg |-> -2088, delx |-> 36, dely |-> 36,
+     plon |-> -97, plat |-> 40, iutm |-> 0, xorg |-> -2736, yorg |-> -2088, delx |-> 36, dely |-> 24,
      iproj |-> 2, istag |-> 0, tlat1 |-> 33, tlat2 |-> 45, h24 |-> h] :
       sp \in (IF Quick THEN { << <<"O","3">> >>, << <<"N","O","2">>, <<"O","3">> >> } ELSE NameSets),
       g \in { <<2, 2, 1>>, <<3, 2, 2>>, <<2, 3, 1>> }, nt \in 1..3, h \in (IF Quick THEN {FALSE} ELSE BOOLEAN),
@@ -62,7 +62,7 @@ BigConfigs ==
   { [fmt |-> "uamiv", name |-> <<"A","V","E","R","A","G","E">>, note |-> <<"b","i","g">>, itzon |-> 0,
      spc |-> << <<"N","O">>, <<"N","O","2">>, <<"O","3">>, <<"C","O">> >>,
      nx |-> 100, ny |-> 100, nz |-> 3, nt |-> 2, year |-> 2011, jjj |-> 182, hour |-> 5,
-     plon |-> -97, plat |-> 40, iutm |-> 0, xorg |-> -2736, yorg |-> -2088, delx |-> 36, dely |-> 36,
+     plon |-> -97, plat |-> 40, iutm |-> 0, xorg |-> -2736, yorg |-> -2088, delx |-> 36, dely |-> 24,
      iproj |-> 2, istag |-> 0, tlat1 |-> 33, tlat2 |-> 45, h24 |-> FALSE] }
 Big == IOEnv.PNC_CAMX_FAMILY = "big"
 AllConfigs == CASE IOEnv.PNC_CAMX_FAMILY = "met" -> MetConfigs
